@@ -64,7 +64,8 @@ TEMPLATES = [
         'd BIT STRING (SIZE(57)), e BIT STRING (SIZE(32)) }')),
     dict(id='enum', quick=True, text=M(
         'A ::= SEQUENCE { a ENUMERATED { x, y, z }, b ENUMERATED { p(0), q(4), r(512) }, '
-        'c ENUMERATED { one }, d ENUMERATED { k, l, m, n }, e ENUMERATED { u(5), v(2), w(9) } }')),
+        'c ENUMERATED { one }, d ENUMERATED { k, l, m, n }, e ENUMERATED { u(5), v(2), w(9) }, '
+        'f ENUMERATED { below(-1), nominal(0), above(2) }, g ENUMERATED { lo(-200), mid(3), hi(100) } }')),
     dict(id='seq-opt', quick=True, text=M(
         'A ::= SEQUENCE { a BOOLEAN OPTIONAL, b INTEGER (-2..4) DEFAULT 3, c ENUMERATED { x, y, z } DEFAULT y, '
         'd OCTET STRING (SIZE(0..2)) DEFAULT \'0102\'H, e BOOLEAN DEFAULT TRUE, '
@@ -516,6 +517,35 @@ def _short(x, n=260):
     return s if len(s) <= n else s[:n] + '...(%d chars)' % len(s)
 
 
+def _concrete_ub(job, templates, reject, v):
+    """re-run the harness with every variable pinned to the witness; returns the UB text or None"""
+    from symcore import run_path
+    from lib.runner import Ctx
+    vals = v['witness']['vars']
+    h = make_harness(job, templates, reject)
+
+    class PinCtx(Ctx):
+        def bytes(self, name, n):
+            b = super().bytes(name, n)
+            for i, c in enumerate(b.c):
+                self.eng.assume(c == vals['%s[%d]' % (name, i)])
+            return b
+
+        def choose(self, name, n):
+            if n <= 1 or name not in vals:
+                return super().choose(name, n)
+            self.shape[name] = vals[name]
+            return vals[name]
+    try:
+        res, _eng = run_path(h, [], job.get('W', 192), ctx_factory=lambda e, r: PinCtx(e, r, job, []))
+    except Exception as e:
+        return None
+    for x in res.violations:
+        if '-ub-' in x['label']:
+            return '%s: %s' % (x['label'], x['info'])
+    return None
+
+
 def replay(v, templates=None, reject=None):
     ok, detail = _replay(v, templates, reject)
     return ok, detail if len(detail) < 1500 else detail[:1500] + '...'
@@ -561,6 +591,15 @@ def _replay(v, templates=None, reject=None):
             return False, r['err']
         if r['rc'] != 0:
             return True, 'decode(%s) under ASan/UBSan: %s' % (inp['input'], r['err'][-700:])
+        if label.startswith('decode-ub'):
+            # the sanitizer build is silent: undefined behaviour that stays inside an object (a write
+            # past an array member of the struct) is invisible to ASan/UBSan.  Confirmed instead by
+            # interpreting the generated C on the concrete input (every value pinned to the witness).
+            ub = _concrete_ub(job, templates, reject, v)
+            if ub:
+                return True, ('decode(%s): %s -- undefined behaviour inside the destination struct, not visible to '
+                              'ASan/UBSan (compiled code returns %s); confirmed by concrete interpretation of the '
+                              'generated C' % (inp['input'], ub, r['out'].get('ret')))
         o = r['out']
         if int(o.get('ret', -1)) < 0:
             return False, 'compiled decoder rejects %s (%s)' % (inp['input'], o.get('ret'))
@@ -570,6 +609,15 @@ def _replay(v, templates=None, reject=None):
             return True, 'decode(%s) -> encode %s -> decode returns %s' % (inp['input'], o.get('bytes'), o.get('ret3'))
         a, b = u.prog.alloc(st.ct, 'd'), u.prog.alloc(st.ct, 'd2')
         mp.load(a, st.td, st.module, bytes.fromhex(o['struct']))
+        try:
+            inside = z3.is_true(z3.simplify(mp.valid(a, st.td, st.module)))
+        except Exception:
+            inside = True
+        if not inside and label.startswith('decode-ub'):
+            # e.g. a length member larger than the array it counts: the write past the member is
+            # inside the struct object, which no sanitizer reports
+            return True, 'decode(%s) returns %s (accepted) but the struct holds a value outside the type: %s' % (
+                inp['input'], o['ret'], cgen.describe(a, None))
         mp.load(b, st.td, st.module, bytes.fromhex(o['struct2']))
         cond = z3.simplify(mp.compare(a, b, st.td, st.module))
         if not z3.is_true(cond):
